@@ -13,8 +13,9 @@ EXPLANATION = (
     "parser, AIR, encoder, loader and the other handlers never evaluate it, so a program without the four mnemonics and "
     "without opcode 0xD behaves identically under both settings. R5 (TAB/EFF): flag parsing ('stack', empty words, unknown "
     "and repeated words) and single initialisation."
-    ' R3 also requires the flag test itself (not only the block behind it) to dominate every state write of the 0xD handler. R5 accepts Cell- or RefCell-based single initialisation and requires the empty feature word to be skipped (filter / continue), not to end the list. R6 (DOM/CG): every construction of a plain Label token in the lexer sits in the keyword routine, behind a call of it, or in a helper only called from such places - no identifier path goes round the gate.'
+    ' R3 also requires the flag test itself (not only the block behind it) to dominate every state write of the 0xD handler. R5 accepts Cell- or RefCell-based single initialisation and requires the empty feature word to be skipped (filter / continue), not to end the list. R6 (DOM/CG): every construction of a plain Label token in the lexer sits in the keyword routine, behind a call of it, or in a helper only called from such places - no identifier path goes round the gate. R5 also: two values of the stack flag are never combined by exclusive or or by a comparison (a flag written twice must stay on).'
 )
+
 NOT_DECIDED = "nothing of substance (the uninitialised-flag case of check/watch is C07.R2)"
 
 FLAG = "lace::features::stack"
@@ -318,6 +319,24 @@ def run(ctx):
     ctx.oblig(ok, {"init": "write dominated by is_none()"}, "single initialisation")
     if not ok:
         ctx.violation("init-twice", cf.file_line(), "features::init can overwrite an already initialised flag")
+    # giving the flag can only turn the feature on: where two flag values are combined (the flag written in two places), the combination is an
+    # OR of the two - an exclusive or, an inequality or an AND-NOT lets a second `-f stack` switch the feature off again
+    ctx.instance(1)
+    bad_comb = []
+    for n_, f_ in sorted(prog.fns.items()):
+        if f_.bkind != "fn" or not (n_.startswith("lace::features::") or n_.startswith("bin::")):
+            continue
+        for b_, i_, s_ in f_.assigns():
+            r_ = s_["r"]
+            if r_["k"] == "bin" and r_["op"] in ("BitXor", "Ne", "Eq", "Sub", "Lt", "Gt"):
+                e_ = f_.rvalue_expr(r_, 8)
+                sides = [e_[2], e_[3]]
+                if all(any(x[0] == "field" and x[2] == "stack" for x in expr_walk(sd)) for sd in sides):
+                    bad_comb.append((short(n_), r_["op"], sp_file_line(s_.get("sp"))))
+    ctx.oblig(not bad_comb, {"flag values combined": "only by OR"}, "no xor / comparison of two `stack` flags")
+    for n_, op_, where_ in bad_comb:
+        ctx.violation("flag-combination|%s|%s" % (n_, op_), where_, "`%s` combines two values of the stack flag with %s: written in two places, `-f stack` cancels itself and the "
+                      "four mnemonics and opcode 0xD are refused although the flag was given" % (n_, op_))
     ctx.finish_rule()
 
 
